@@ -126,6 +126,10 @@ var c13Extra = []Prog{
 	{"len([1: 1, 1: 2, 2: 3]) + get([1: 1, 1: 2], 1, 0)", "none", false, false},
 	{"[m == m, mi == mi, mo == mo, [m, m] == [m, m]]", "map", false, false},
 	{"[isset(mo, \"u\"), isset(mo, \"zz\"), get(mo, \"v\", o).id]", "struct", false, false},
+	// a function that every engine with user functions registers under the SAME name with ANOTHER body
+	{"tag(n) + 1", "map", true, false},
+	{"[tag(1), tag(x)]", "struct", true, false},
+	{"if(b, tag(n), 0) + len(l)", "map", true, false},
 	// the user's overload of a built-in name next to the built-in ones
 	{"len(p.b) + len(l) + len(m)", "map", true, false},
 	{"[len(p.b), len(p.c), len(s)]", "struct", true, false},
@@ -830,7 +834,7 @@ func runHist13(h *Hist13, x *evalCtx) hist13Result {
 								panic(rr)
 							}
 						}()
-						e := buildEngine(EngineSpec{pickBackend(r), true}, x.recFn)
+						e := buildEngine(EngineSpec{pickBackend(r), true, 0}, x.recFn)
 						if c, err := e.Compile(p.Src, envMakers[p.Env]()); err == nil && j%2 == 0 {
 							c(envMakers[p.Env]())
 						}
@@ -937,7 +941,11 @@ func genHist13(r *rng) *Hist13 {
 	h := &Hist13{}
 	ne := 1 + r.intn(3)
 	for i := 0; i < ne; i++ {
-		h.Engines = append(h.Engines, EngineSpec{pickBackend(r), r.chance(0.6)})
+		spec := EngineSpec{pickBackend(r), r.chance(0.6), 0}
+		if spec.UserFuns {
+			spec.Tag = 1000 * (i + 1) // same name, another function on every engine
+		}
+		h.Engines = append(h.Engines, spec)
 	}
 	n := 6 + r.intn(30)
 	var compiles []int
@@ -993,6 +1001,27 @@ func genHist13(r *rng) *Hist13 {
 			h.Ops = append(h.Ops, H13Op{K: "debug", Prog: &p})
 		default:
 			h.Ops = append(h.Ops, H13Op{K: "interfere", N: 1 + r.intn(4)})
+		}
+	}
+	if ne >= 2 && r.chance(0.3) {
+		// one source that calls the per-engine function `tag`, compiled on TWO engines that
+		// both have one, both Callables invoked on ONE raw environment object: what one
+		// engine's Callable leaves in the environment is none of the other's business
+		var us []int
+		for i, sp := range h.Engines {
+			if sp.Tag != 0 {
+				us = append(us, i)
+			}
+		}
+		if len(us) >= 2 {
+			p := Prog{Src: r.pick([]string{"tag(n) + 1", "[tag(1), tag(x)]", "if(b, tag(n), 0) + len(l)", "tag(len(l)) * 2"}), Env: "map", User: true}
+			for round := 0; round < 2; round++ {
+				for _, e := range us[:2] {
+					q := p
+					h.Ops = append(h.Ops, H13Op{K: "compile", Eng: e, Prog: &q, Carrier: "fresh"})
+					h.Ops = append(h.Ops, H13Op{K: "invoke", C: len(h.Ops) - 1, Env: "map", Carrier: "raw"})
+				}
+			}
 		}
 	}
 	if r.chance(0.5) {
